@@ -3,8 +3,8 @@ import RreModel.C06.Spec
 /-
 Driver for C06 (formats: see harness/src/bin/c06.rs).
   drv_c06 model   : case        ↦ observation predicted by the model
-  drv_c06 oracle  : case | obs  ↦ `ok <tags>` / `fail <clause>@<step>`  (C06.orun, then the glue-level clause
-                    `action_write_lost` defined below, then C06.orunG on the loader engine)
+  drv_c06 oracle  : case | obs  ↦ `ok <tags>` / `fail <clause>@<step>`  (C06.orun, then the clause `action_write_lost`
+                    = C06.writeBackBad, then C06.orunG on the loader engine)
 -/
 open Proto C06
 
@@ -231,42 +231,8 @@ def firstBad (rules : List Rule) : Nat → Ref → List Op → List Obs → Stri
     | none => s!"{clauseOf rules r op o}@{i}"
   | i, _, _, _ => s!"length@{i}"
 
-/-! ### action write-back (glue-level clause, evaluated after `orun` passed)
-
-"including actions that modify the matched fact": what an action assigns IS the fact's contents from then on.  When the matched
-fact is the only live fact of its type (then the un-prefixed `Type.field` keys of the flattened copy are its own and the
-write-back by type reaches it alone, whatever the hash order), a non-retracting rule with assignments leaves the fact with the
-contents the closure saw plus its assignments — typed values, not their printed form.  Checked against the contents the NEXT
-firing on the same handle saw, or, for the last firing of the call, against the view after the call. -/
-def applySets (d : Data) (sets : List (Nat × Val)) : Data := sets.foldl (fun d kv => d.set kv.1 kv.2) d
-
-def writesOk (rules : List Rule) (final : List (Nat × Nat × Data)) : List (Nat × Nat × Data) → List Firing → Bool
-  | _, [] => true
-  | L, x :: xs =>
-    match rules.find? (·.name == x.rule), L.find? (·.1 == x.handle) with
-    | some r, some (_, ty, _) =>
-      let L' := if r.action.retract && ty == r.ty then L.filter (·.1 != x.handle) else L
-      let sole := (L.filter (·.2.1 == ty)).length == 1
-      let ok :=
-        if ty == r.ty && !r.action.retract && !r.action.sets.isEmpty && sole then
-          let E := canonData (applySets x.data r.action.sets)
-          match xs with
-          | [] => (match final.find? (·.1 == x.handle) with | some (_, _, d) => canonData d == E | none => true)
-          | y :: _ => y.handle != x.handle || canonData y.data == E
-        else true
-      ok && writesOk rules final L' xs
-    | _, _ => true
-
-def writeBackBad (rules : List Rule) : Nat → Ref → List Op → List Obs → Option String
-  | i, r, op :: ops, o :: os =>
-    match ostep rules r op o with
-    | some r' =>
-      let bad := match op, o.res with
-        | .fire, .fired _ log => !writesOk rules o.view.contents r.live log
-        | _, _ => false
-      if bad then some s!"action_write_lost@{i}" else writeBackBad rules (i + 1) r' ops os
-    | none => none
-  | _, _, _, _ => none
+/-! ### action write-back: clause `action_write_lost`, evaluated after `orun` passed — `C06.applySets`, `C06.writesOk`,
+`C06.writeBackBad` live in Spec.lean (theorems `C06.action_writes_kept`, `C06.action_writes_kept_history`) -/
 
 def clauseOfG (rules : List Rule) (r : Ref) (op : Op) (o : Obs) : String :=
   match op, o.res with
